@@ -68,6 +68,14 @@ func init() {
 			}
 		}
 		g.pf("def coll : List (String × String) :=\n  %s\n\n", leanPairList(coll))
+		// multiple assignments: what Model/TupleAssign.lean (the guard and the one-target-at-a-time semantics) was written from
+		var tuple [][2]string
+		for _, n := range []string{"Ctx.multipleAssignStmt", "Ctx.stableOperands", "Ctx.assignFromTo", "Ctx.pointerAssign"} {
+			if fds[n] != nil {
+				tuple = append(tuple, [2]string{n, canonFunc(p, fds[n])})
+			}
+		}
+		g.pf("def tuple : List (String × String) :=\n  %s\n\n", leanPairList(tuple))
 		// functions, calls, closures, methods, strings: what the functions model (Model/Fun.lean) was written from
 		var funs [][2]string
 		for _, n := range []string{"Ctx.funcDecl", "Ctx.paramList", "Ctx.returnExpr", "Ctx.returnType", "Ctx.funcLit", "Ctx.callExpr", "Ctx.methodExpr", "Ctx.selectorMethod",
